@@ -101,6 +101,8 @@ theorem stab_applyGate_runs {s : StabState} {g : GateTerm P} {bits : List Nat} {
     ds' = ds ∧ s'.counts = s.counts ∧ s'.nrBits = s.nrBits ∧ s'.nrShots = s.nrShots ∧
     List.Forall₂ (fun t t' => Tab.applyGate ph (conjOf g) t bits = .ok t') s.tabs s'.tabs := by
   unfold StabState.applyGate at h
+  split at h
+  · exact absurd h runs_err_ok
   obtain ⟨ts, d1, h1, h2⟩ := runs_bind_ok _ _ h
   obtain ⟨e1, rfl⟩ := runs_lift_ok h1
   obtain ⟨e2, rfl⟩ := runs_pure_iff.mp h2
@@ -403,6 +405,8 @@ theorem stab_applyConditional_runs {n N : Nat} {s : StabState} {c : List Nat} {c
   split at h
   · exact absurd h runs_err_ok
   rename_i hlen
+  split at h
+  · exact absurd h runs_err_ok
   split at h
   · exact absurd h runs_panic_ok
   rename_i ranges hr
